@@ -26,11 +26,20 @@ import (
 	"regexp"
 	"sort"
 	"strings"
+	"sync"
 	"time"
 
 	"github.com/evanw/esbuild/internal/ast"
+	"github.com/evanw/esbuild/internal/bundler"
+	"github.com/evanw/esbuild/internal/cache"
+	"github.com/evanw/esbuild/internal/config"
+	"github.com/evanw/esbuild/internal/fs"
+	"github.com/evanw/esbuild/internal/graph"
 	"github.com/evanw/esbuild/internal/helpers"
+	"github.com/evanw/esbuild/internal/linker"
+	"github.com/evanw/esbuild/internal/logger"
 	"github.com/evanw/esbuild/internal/renamer"
+	"github.com/evanw/esbuild/internal/resolver"
 	"github.com/evanw/esbuild/pkg/api"
 	. "github.com/evanw/esbuild/verifharness/hlib"
 )
@@ -56,6 +65,7 @@ type stmt struct {
 	locals []string // local binding names (kNamed) or re-export aliases (kReexp); ns name in locals[0] for ns kinds
 	used   []bool   // kNamed: whether the binding is used in a live top-level statement
 	call   bool     // kNamed: call the imported bump() (mutates the target's state)
+	fixed  []string // kNamed: import exactly these names
 	viaImp bool     // kReexp written as `import {a as l} from; export {l as b}` instead of `export {a as b} from`
 	pref   bool     // kReexp: prefer re-exporting counters (export let) and their mutator functions
 }
@@ -68,6 +78,9 @@ type mod struct {
 	dyn    []int // import() targets in source order
 	varKW  string
 	nsLive bool // someone uses its namespace object as a value
+	uname  string // name of the module's third exported binding ("" = u_<name>); drawn from a
+	// small colliding pool with generated-suffix look-alikes so that several files of one
+	// chunk export x, x, x2, x22 ... in either discovery order
 
 	exports map[string]expEntry // export table
 }
@@ -112,9 +125,18 @@ func scenarioGraphs(r *Rng) []*graphCase {
 
 func (g *graphCase) m(id int) *mod { return g.mods[id-1] }
 
+func (m *mod) uniq() string {
+	if m.uname != "" {
+		return m.uname
+	}
+	return "u_" + m.name
+}
+
+var collidingNames = []string{"x", "x", "x2", "x22", "x3", "x23", "count", "count", "count2"}
+
 // own exportable symbols in InnerIndex order; the exports object comes last
 func ownNames(m *mod) []string {
-	return []string{"v", "bump", "u_" + m.name, "done", m.name + "_exports"}
+	return []string{"v", "bump", m.uniq(), "done", m.name + "_exports"}
 }
 
 const exportsRefIdx = 4
@@ -125,7 +147,7 @@ func ownExportIdx(m *mod, name string) int {
 		return 0
 	case "bump":
 		return 1
-	case "u_" + m.name:
+	case m.uniq():
 		return 2
 	case "done":
 		return 3
@@ -145,6 +167,9 @@ func genGraph(r *Rng, k, n int, inc [][]bool, rich bool) *graphCase {
 	}
 	for _, m := range g.mods {
 		m.varKW = []string{"let", "var", "let"}[r.Intn(3)]
+		if r.Chance(45) {
+			m.uname = collidingNames[r.Intn(len(collidingNames))]
+		}
 	}
 	// user entry order as given on the command line may differ from id order
 	if r.Chance(30) {
@@ -383,6 +408,56 @@ func genReexport(r *Rng) *graphCase {
 	return g
 }
 
+// leaf modules whose exported bindings are named from the colliding pool, all
+// imported by every entry point (one shared chunk that has to export all of
+// them), import order shuffled so that x2 is discovered before or after x, x
+func genNames(r *Rng) *graphCase {
+	g := &graphCase{}
+	k := 2 + r.Intn(2)
+	nm := 3 + r.Intn(4)
+	pools := [][]string{{"x", "x", "x2"}, {"x", "x2", "x22", "x"}, {"count", "count", "count2", "count22"}, {"x", "x", "x", "x3", "x2", "x23"}}
+	pool := pools[r.Intn(len(pools))]
+	for i := 0; i < k; i++ {
+		g.mods = append(g.mods, &mod{id: i + 1, name: fmt.Sprintf("e%d", i), user: true, varKW: "let"})
+		g.user = append(g.user, i+1)
+	}
+	for j := 0; j < nm; j++ {
+		g.mods = append(g.mods, &mod{id: k + j + 1, name: fmt.Sprintf("m%d", j), varKW: "let", uname: pool[r.Intn(len(pool))]})
+	}
+	order := make([]int, nm)
+	for j := range order {
+		order[j] = j
+	}
+	for i := len(order) - 1; i > 0; i-- {
+		j := r.Intn(i + 1)
+		order[i], order[j] = order[j], order[i]
+	}
+	for e := 1; e <= k; e++ {
+		for _, j := range order {
+			if e > 1 && r.Chance(15) {
+				continue
+			}
+			t := g.m(k + j + 1)
+			fixed := []string{t.uniq()}
+			if r.Chance(40) {
+				fixed = append(fixed, "v")
+			}
+			g.m(e).stmts = append(g.m(e).stmts, stmt{kind: kNamed, target: t.id, fixed: fixed})
+		}
+	}
+	g.prune()
+	g.fill(r)
+	for _, m := range g.mods {
+		for i := range m.stmts {
+			for j := range m.stmts[i].used {
+				m.stmts[i].used[j] = true
+			}
+		}
+	}
+	g.desc = fmt.Sprintf("names k=%d modules=%d pool=%v", k, nm, pool)
+	return g
+}
+
 // drop files not reachable from the user entry points and renumber
 func (g *graphCase) prune() {
 	seen := map[int]bool{}
@@ -443,6 +518,9 @@ func (g *graphCase) fill(r *Rng) {
 			case kNamed:
 				nn := 1 + r.Intn(3)
 				pick := pickSome(r, tn, nn)
+				if s.fixed != nil {
+					pick = append([]string{}, s.fixed...)
+				}
 				// always prefer to have "done" (initialised-before-use probe) and often bump
 				if !contains(pick, "done") && r.Chance(70) {
 					pick = append(pick, "done")
@@ -586,24 +664,6 @@ func (g *graphCase) resolveExport(f int, name string) resolved {
 	return g.resolveImport(e.from, e.fromName)
 }
 
-type modelFile struct {
-	recs    [][2]int // (target, dynamic)
-	deps    []int
-	ldeps   []int
-	names   []string
-	uses    [][2]int
-	exports [][2]int
-}
-
-func addUniq(xs []int, x int) []int {
-	for _, y := range xs {
-		if y == x {
-			return xs
-		}
-	}
-	return append(xs, x)
-}
-
 func (g *graphCase) isEntry(id int) bool {
 	if g.m(id).user {
 		return true
@@ -616,79 +676,6 @@ func (g *graphCase) isEntry(id int) bool {
 		}
 	}
 	return false
-}
-
-func (g *graphCase) modelFiles() []modelFile {
-	out := make([]modelFile, len(g.mods)+1)
-	out[0] = modelFile{names: []string{"__export"}}
-	for _, m := range g.mods {
-		mf := modelFile{}
-		for _, nm := range ownNames(m) {
-			mf.names = append(mf.names, nm)
-		}
-		addDep := func(rs resolved, live bool) {
-			for _, f := range append([]int{rs.file}, rs.inter...) {
-				if f != m.id {
-					mf.deps = addUniq(mf.deps, f)
-					if live {
-						mf.ldeps = addUniq(mf.ldeps, f)
-					}
-				}
-			}
-		}
-		for _, s := range m.stmts {
-			mf.recs = append(mf.recs, [2]int{s.target, 0})
-			switch s.kind {
-			case kNamed:
-				for i, nm := range s.names {
-					if s.used[i] || (s.call && g.resolveImport(s.target, nm).idx == 1) {
-						rs := g.resolveImport(s.target, nm)
-						mf.uses = append(mf.uses, [2]int{rs.file, rs.idx})
-						addDep(rs, true)
-					}
-				}
-			case kNsProp:
-				for _, nm := range s.names {
-					rs := g.resolveImport(s.target, nm)
-					mf.uses = append(mf.uses, [2]int{rs.file, rs.idx})
-					addDep(rs, true)
-				}
-			case kNsVal:
-				mf.uses = append(mf.uses, [2]int{s.target, exportsRefIdx})
-				addDep(resolved{file: s.target}, true)
-				// the final view reads ns.v: a property access on the namespace
-				// becomes a direct reference to the declaring symbol
-				rs := g.resolveImport(s.target, "v")
-				mf.uses = append(mf.uses, [2]int{rs.file, rs.idx})
-				addDep(rs, true)
-			}
-		}
-		for _, t := range m.dyn {
-			mf.recs = append(mf.recs, [2]int{t, 1})
-		}
-		// the namespace-export part of every file with exports depends on
-		// __export and on every export target; it is live only if the
-		// namespace object is used.  Entry points depend on their export
-		// targets through a part that is always live.
-		entry := g.isEntry(m.id)
-		mf.deps = addUniq(mf.deps, 0)
-		if m.nsLive {
-			mf.ldeps = addUniq(mf.ldeps, 0)
-			mf.uses = append(mf.uses, [2]int{0, 0})
-		}
-		for _, al := range sortedKeys(m.exports) {
-			rs := g.resolveExport(m.id, al)
-			addDep(rs, m.nsLive || entry)
-			if m.nsLive {
-				mf.uses = append(mf.uses, [2]int{rs.file, rs.idx})
-			}
-			if entry {
-				mf.exports = append(mf.exports, [2]int{rs.file, rs.idx})
-			}
-		}
-		out[m.id] = mf
-	}
-	return out
 }
 
 // ---------------------------------------------------------------------------
@@ -735,7 +722,7 @@ func (g *graphCase) source(m *mod) string {
 	w("export %s v = 0;\n", m.varKW)
 	w("export function bump() { v++; return v; }\n")
 	w("let hidden = \"h:%s\";\n", N)
-	w("export const u_%s = \"u:%s\";\n", N, N)
+	w("export const %s = \"u:%s\";\n", m.uniq(), N)
 	var views []string
 	views = append(views, "v", "hidden")
 	for _, s := range m.stmts {
@@ -818,16 +805,187 @@ func cStrs(xs []string) string {
 	return "[" + strings.Join(it, ";") + "]"
 }
 
-func (g *graphCase) coqGraph(minify bool) string {
-	var fs []string
-	for _, mf := range g.modelFiles() {
-		var recs []string
-		for _, r := range mf.recs {
-			recs = append(recs, fmt.Sprintf("(%d,%s)", r[0], CBool(r[1] == 1)))
+// ---------------------------------------------------------------------------
+// the linker's own view: the same sources are scanned with the real bundler
+// and linked with the dumping copy of Link (C10 hook) and with Link itself
+// (outputs must agree); the dump is the INPUT of the Coq model (import
+// records, parts, ImportsToBind, resolved exports) and a second observation of
+// its output (chunks, cross-chunk import refs, export aliases)
+
+func hasErr(msgs []logger.Msg) string {
+	for _, m := range msgs {
+		if m.Kind == logger.Error {
+			return m.Data.Text
 		}
-		fs = append(fs, fmt.Sprintf("([%s],%s,%s,%s,%s,%s)", strings.Join(recs, ";"), cInts(mf.deps), cInts(mf.ldeps), cStrs(mf.names), cPairs(mf.uses), cPairs(mf.exports)))
 	}
-	return fmt.Sprintf("([%s],%s,%s)", strings.Join(fs, ";"), cInts(g.user), CBool(minify))
+	return ""
+}
+
+func (g *graphCase) linkDump(cfg buildCfg) (*linker.VerifC10Dump, string) {
+	abs := map[string]string{}
+	for _, m := range g.mods {
+		abs["/src/"+m.name+".js"] = g.source(m)
+	}
+	options := config.Options{
+		Mode:              config.ModeBundle,
+		OutputFormat:      config.FormatESModule,
+		AbsOutputDir:      "/out",
+		TreeShaking:       true,
+		CodeSplitting:     true,
+		MinifySyntax:      cfg.MinifySyntax,
+		MinifyIdentifiers: cfg.MinifyIdent,
+		MinifyWhitespace:  cfg.MinifyWS,
+		ExtensionOrder:    []string{".tsx", ".ts", ".jsx", ".js", ".css", ".json"},
+	}
+	var eps []bundler.EntryPoint
+	for _, e := range g.user {
+		eps = append(eps, bundler.EntryPoint{InputPath: "/src/" + g.m(e).name + ".js"})
+	}
+	log := logger.NewDeferLog(logger.DeferLogNoVerboseOrDebug, nil)
+	mockFS := fs.MockFS(abs, fs.MockUnix, "/")
+	bundle := bundler.ScanBundle(config.BuildCall, log, mockFS, cache.MakeCacheSet(), eps, options, nil)
+	if e := hasErr(log.Done()); e != "" {
+		return nil, "scan: " + e
+	}
+	var mu sync.Mutex
+	var dumps []*linker.VerifC10Dump
+	dumpingLink := func(options *config.Options, timer *helpers.Timer, log logger.Log, fs fs.FS, res *resolver.Resolver,
+		inputFiles []graph.InputFile, entryPoints []graph.EntryPoint, uniqueKeyPrefix string, reachableFiles []uint32,
+		dataForSourceMaps func() []bundler.DataForSourceMap) []graph.OutputFile {
+		d := &linker.VerifC10Dump{}
+		out := linker.VerifC10Link(d)(options, timer, log, fs, res, inputFiles, entryPoints, uniqueKeyPrefix, reachableFiles, dataForSourceMaps)
+		mu.Lock()
+		dumps = append(dumps, d)
+		mu.Unlock()
+		return out
+	}
+	log = logger.NewDeferLog(logger.DeferLogNoVerboseOrDebug, nil)
+	res1, _ := bundle.Compile(log, nil, nil, dumpingLink)
+	if e := hasErr(log.Done()); e != "" {
+		return nil, "link: " + e
+	}
+	log = logger.NewDeferLog(logger.DeferLogNoVerboseOrDebug, nil)
+	res2, _ := bundle.Compile(log, nil, nil, linker.Link)
+	if e := hasErr(log.Done()); e != "" {
+		return nil, "link2: " + e
+	}
+	if len(res1) != len(res2) || len(dumps) != 1 {
+		return nil, "HOOKDIFF: output count differs"
+	}
+	for i := range res1 {
+		if res1[i].AbsPath != res2[i].AbsPath || string(res1[i].Contents) != string(res2[i].Contents) {
+			return nil, "HOOKDIFF: " + res1[i].AbsPath
+		}
+	}
+	return dumps[0], ""
+}
+
+func cPair(p [2]uint32) string { return fmt.Sprintf("(%d,%d)", p[0], p[1]) }
+func cPairList(ps [][2]uint32) string {
+	var it []string
+	for _, p := range ps {
+		it = append(it, cPair(p))
+	}
+	return "[" + strings.Join(it, ";") + "]"
+}
+func cU32s(xs []uint32) string {
+	var it []string
+	for _, x := range xs {
+		it = append(it, fmt.Sprintf("%d", x))
+	}
+	return "[" + strings.Join(it, ";") + "]"
+}
+
+// the model input as a Coq term (graph_z); "" with a reason when the dump is
+// outside the modelled fragment (wrapped files, namespace aliases)
+func dumpGraph(d *linker.VerifC10Dump, minify bool) (string, string) {
+	var fs []string
+	for fi := range d.Files {
+		f := &d.Files[fi]
+		if !f.IsJS {
+			fs = append(fs, "([],[],[],[],[])")
+			continue
+		}
+		if f.Wrap != 0 {
+			return "", "wrapped file " + f.Path
+		}
+		var recs []string
+		for _, r := range f.Records {
+			if r[0] >= 0 {
+				recs = append(recs, fmt.Sprintf("(%d,%s)", r[0], CBool(uint8(r[1]) == uint8(ast.ImportDynamic))))
+			}
+		}
+		var parts, names []string
+		seenName := map[uint32]bool{}
+		for _, p := range f.Parts {
+			var uses [][2]uint32
+			for _, u := range p.Uses {
+				sym := d.Files[u[0]].Symbols[u[1]]
+				if sym.Missing {
+					continue // "Ignore symbols that are going to be replaced by undefined"
+				}
+				if sym.HasNSAlias {
+					return "", "namespace alias " + sym.Name
+				}
+				uses = append(uses, u)
+			}
+			var decl []uint32
+			for _, dd := range p.Declared {
+				decl = append(decl, dd[1])
+				if !seenName[dd[1]] {
+					seenName[dd[1]] = true
+					names = append(names, fmt.Sprintf("(%d,%s)", dd[1], cBytesStr(f.Symbols[dd[1]].Name)))
+				}
+			}
+			parts = append(parts, fmt.Sprintf("(%s,%s,%s,%s)", CBool(p.IsLive), cU32s(p.Deps), cPairList(uses), cU32s(decl)))
+		}
+		var binds []string
+		for _, b := range f.Binds {
+			binds = append(binds, fmt.Sprintf("(%s,%s)", cPair(b.Key), cPair(b.Target)))
+		}
+		var exps [][2]uint32
+		if f.IsEntry {
+			for _, e := range f.Exports {
+				if e.Ref[0] != e.Src {
+					return "", "export ref of another file"
+				}
+				exps = append(exps, [2]uint32{e.Src, e.Ref[1]})
+			}
+		}
+		fs = append(fs, fmt.Sprintf("([%s],[%s],[%s],[%s],%s)", strings.Join(recs, ";"), strings.Join(parts, ";"), strings.Join(binds, ";"), strings.Join(names, ";"), cPairList(exps)))
+	}
+	var user []uint32
+	for _, e := range d.EntryPoints {
+		if d.Files[e].IsUser {
+			user = append(user, e)
+		}
+	}
+	return fmt.Sprintf("([%s],%s,%s)", strings.Join(fs, ";\n   "), cU32s(user), CBool(minify)), ""
+}
+
+// the linker's chunks as a Coq term (list dchunk_z)
+func dumpChunks(d *linker.VerifC10Dump) string {
+	var items []string
+	for _, c := range d.Chunks {
+		entry := "(-1)"
+		if c.IsEntry {
+			entry = fmt.Sprintf("%d", c.SourceIndex)
+		}
+		var imps []string
+		for _, im := range c.Imports {
+			imps = append(imps, fmt.Sprintf("(%d,%s,%s)", im.Chunk, cPairList(im.Refs), cStrs(im.Aliases)))
+		}
+		var exps []string
+		for i, r := range c.ExportRefs {
+			exps = append(exps, fmt.Sprintf("(%s,%s)", cPair(r), cBytesStr(c.ExportNames[i])))
+		}
+		var cross []string
+		for i, k := range c.CrossKinds {
+			cross = append(cross, fmt.Sprintf("(%s,%d)", CBool(k == uint8(ast.ImportDynamic)), c.CrossChunks[i]))
+		}
+		items = append(items, fmt.Sprintf("(%s,%s,%s,[%s],[%s],[%s])", CBytes(c.EntryBits), entry, cU32s(c.FilesInOrder), strings.Join(imps, ";"), strings.Join(exps, ";"), strings.Join(cross, ";")))
+	}
+	return "[" + strings.Join(items, ";\n   ") + "]"
 }
 
 // ---------------------------------------------------------------------------
@@ -1073,14 +1231,15 @@ func (b *built) byBase(p string) *obsChunk {
 	return nil
 }
 
-func rep(c *obsChunk) int {
+// idm maps the harness's file ids to the linker's source indices (the ids of the model input)
+func rep(c *obsChunk, idm map[int]int) int {
 	if c.entry != 0 {
-		return 1000 + c.entry
+		return 1000 + idm[c.entry]
 	}
 	m := 0
 	for _, f := range c.files {
-		if m == 0 || f < m {
-			m = f
+		if m == 0 || idm[f] < m {
+			m = idm[f]
 		}
 	}
 	return m
@@ -1088,7 +1247,7 @@ func rep(c *obsChunk) int {
 
 // observed chunks as a Coq term; also returns a problem description when the
 // emitted files refer to something that does not exist
-func (b *built) coqObs() (string, string) {
+func (b *built) coqObs(idm map[int]int) (string, string) {
 	var items []string
 	problem := ""
 	for _, c := range b.chunks {
@@ -1103,7 +1262,7 @@ func (b *built) coqObs() (string, string) {
 			for _, it := range pi.items {
 				al = append(al, it[0])
 			}
-			st = append(st, fmt.Sprintf("(%d,%s)", rep(t), cStrs(al)))
+			st = append(st, fmt.Sprintf("(%d,%s)", rep(t, idm), cStrs(al)))
 		}
 		var dyn []int
 		for _, p := range c.dynamic {
@@ -1114,12 +1273,16 @@ func (b *built) coqObs() (string, string) {
 			}
 			if t != c {
 				// crossChunkImports does not list the chunk itself
-				dyn = append(dyn, rep(t))
+				dyn = append(dyn, rep(t, idm))
 			}
 		}
 		sort.Ints(dyn)
 		dyn = uniqInts(dyn)
-		items = append(items, fmt.Sprintf("(%d,%s,[%s],%s,%s)", rep(c), cInts(c.files), strings.Join(st, ";"), cInts(dyn), cStrs(c.exports)))
+		var files []int
+		for _, f := range c.files {
+			files = append(files, idm[f])
+		}
+		items = append(items, fmt.Sprintf("(%d,%s,[%s],%s,%s)", rep(c, idm), cInts(files), strings.Join(st, ";"), cInts(dyn), cStrs(c.exports)))
 	}
 	return "[" + strings.Join(items, ";") + "]", problem
 }
@@ -1494,11 +1657,11 @@ func runC10(seed uint64, n int, tier string, outDir string) []*Stats {
 	}
 
 	stB := NewStats("c10-bitset-renamer", seed)
-	unitCases(r, n, stB, cf)
+	unitCases(r, n, stB, cf, tmp)
 	stB.Finish("distinct input AND at least one set bit / one renamed or multi-character name")
 
 	stS := NewStats("c10-split", seed)
-	var fullItems []string
+	var fullItems, dumpItems []string
 	var pend []*pendingCase
 	var jobs []job
 
@@ -1512,7 +1675,23 @@ func runC10(seed uint64, n int, tier string, outDir string) []*Stats {
 			os.WriteFile(filepath.Join(root, "src", m.name+".js"), []byte(g.source(m)), 0o644)
 		}
 		b := g.build(root, "out", cfg, true)
-		key := g.coqGraph(cfg.MinifyIdent)
+		// the linker's own data for the same sources and options
+		key, why := "", ""
+		idm := map[int]int{}
+		dump, derr := g.linkDump(cfg)
+		if derr != "" {
+			why = derr
+			if strings.HasPrefix(derr, "HOOKDIFF") {
+				stS.Fail("the dumping copy of Link (verif hook) produces other output than Link", g.describe(cfg, true), derr, "identical outputs")
+			}
+		} else {
+			key, why = dumpGraph(dump, cfg.MinifyIdent)
+			for fi := range dump.Files {
+				if id := g.fileByName(strings.TrimSuffix(filepath.Base(dump.Files[fi].Path), ".js")); id > 0 && dump.Files[fi].IsJS {
+					idm[id] = fi
+				}
+			}
+		}
 		if !b.ok {
 			stS.Note("build-error", key, false)
 			stS.Fail("splitting build of a valid module graph fails", g.describe(cfg, true), b.errs, "no errors")
@@ -1529,7 +1708,7 @@ func runC10(seed uint64, n int, tier string, outDir string) []*Stats {
 				stS.Fail("entry point has no output chunk", g.describe(cfg, true), "no output with entryPoint "+g.m(e).name+".js", "one output per entry point")
 			}
 		}
-		obs, problem := b.coqObs()
+		obs, problem := b.coqObs(idm)
 		if problem != "" {
 			stS.Fail("emitted chunks reference a chunk that does not exist", g.describe(cfg, true), problem, "every imported path is an output")
 		}
@@ -1548,8 +1727,16 @@ func runC10(seed uint64, n int, tier string, outDir string) []*Stats {
 		}
 		stS.Note(kind, key+obs, shared > 0)
 		stS.Sample(map[string]interface{}{"entries": len(g.user), "files": len(g.mods), "chunks": len(b.chunks), "shape": g.desc})
-		item := fmt.Sprintf("(%s,\n  %s)", key, obs)
-		fullItems = append(fullItems, item)
+		if why != "" {
+			stS.Note("outside-model: "+strings.SplitN(why, " ", 2)[0], g.desc, false)
+		} else {
+			fullItems = append(fullItems, fmt.Sprintf("(%s,\n  %s)", key, obs))
+			dumpItems = append(dumpItems, fmt.Sprintf("(%s,\n  %s)", key, dumpChunks(dump)))
+			// the linker's chunks and the emitted files must be the same chunks
+			if len(dump.Chunks) != len(b.chunks) {
+				stS.Fail("the linker computed other chunks than api.Build emitted", g.describe(cfg, true), fmt.Sprintf("%d chunks in the linker, %d outputs", len(dump.Chunks), len(b.chunks)), "same chunks")
+			}
+		}
 		if !oracle {
 			os.RemoveAll(root)
 			return
@@ -1607,6 +1794,10 @@ func runC10(seed uint64, n int, tier string, outDir string) []*Stats {
 	}
 	for i := 0; i < nDist; i++ {
 		handle(genDistance(r), buildCfg{MinifyIdent: i%4 == 3}, true, i%3 == 0)
+	}
+	// (1d) colliding top-level names in one shared chunk (identifiers not minified)
+	for i := 0; i < n/3+8; i++ {
+		handle(genNames(r), buildCfg{MinifySyntax: i%3 == 1, MinifyWS: i%3 == 1}, true, i%2 == 0)
 	}
 	// (1c) entry points re-exporting bindings that live in shared chunks
 	nRe := n/2 + 10
@@ -1693,6 +1884,7 @@ func runC10(seed uint64, n int, tier string, outDir string) []*Stats {
 		handle(g, buildCfg{}, true, true)
 	}
 	fullItems = fullItems[:nFull]
+	dumpItems = dumpItems[:nFull]
 
 	// (3) run Node once for all jobs
 	tBuild := time.Since(t0)
@@ -1710,6 +1902,7 @@ func runC10(seed uint64, n int, tier string, outDir string) []*Stats {
 	stS.Extra["node_jobs"] = len(jobs)
 	stS.Extra["build_seconds"] = tBuild.Seconds()
 	cf.AddCases("split", "graph_z * list obs_z", "check_split", fullItems)
+	cf.AddCases("dump", "graph_z * list dchunk_z", "check_dump", dumpItems)
 	stS.Finish("distinct (graph, observed chunks) AND at least one shared chunk")
 
 	if err := os.WriteFile(filepath.Join(outDir, "c10_cases.v"), []byte(cf.String()), 0o644); err != nil {
@@ -1801,7 +1994,53 @@ func outputsOf(b *built) map[string]string {
 // ---------------------------------------------------------------------------
 // direct correspondence: BitSet, ExportRenamer, NumberToMinifiedName
 
-func unitCases(r *Rng, n int, st *Stats, cf *CoqFile) {
+// a name list on which the real ExportRenamer hands out the same alias twice
+// is a failing input of the property's predicate (export aliases distinct); it
+// is turned into a splitting project: one module per name, all imported by two
+// entry points (one shared chunk exporting all of them), built and loaded
+func materialiseNames(tmp string, idx int, names, aliases []string) (map[string]interface{}, string) {
+	root := filepath.Join(tmp, fmt.Sprintf("ren%d", idx))
+	os.MkdirAll(filepath.Join(root, "src"), 0o755)
+	os.WriteFile(filepath.Join(root, "package.json"), []byte(`{"type":"module"}`), 0o644)
+	files := map[string]string{}
+	var imps, reads []string
+	for i, nm := range names {
+		files[fmt.Sprintf("src/f%d.js", i)] = fmt.Sprintf("globalThis.__L.push(\"f%d:start\");\nexport let %s = \"f%d:%s\";\n", i, nm, i, nm)
+		imps = append(imps, fmt.Sprintf("import {%s as n%d} from \"./f%d.js\";", nm, i, i))
+		reads = append(reads, fmt.Sprintf("n%d", i))
+	}
+	for _, e := range []string{"e0", "e1"} {
+		files["src/"+e+".js"] = strings.Join(imps, "\n") + fmt.Sprintf("\nglobalThis.__L.push(\"%s:start\");\nglobalThis.__L.push(\"%s:read:\" + [%s].join(\",\"));\n", e, e, strings.Join(reads, ", "))
+	}
+	for p, txt := range files {
+		os.WriteFile(filepath.Join(root, p), []byte(txt), 0o644)
+	}
+	input := map[string]interface{}{"names": names, "files": files, "entryPoints": []string{"src/e0.js", "src/e1.js"}, "options": "bundle splitting format=esm outdir=out (identifiers not minified)"}
+	res := api.Build(api.BuildOptions{AbsWorkingDir: root, EntryPoints: []string{"src/e0.js", "src/e1.js"}, Bundle: true, Splitting: true,
+		Format: api.FormatESModule, Outdir: "out", Write: true, LogLevel: api.LogLevelSilent})
+	if len(res.Errors) > 0 {
+		return input, "build error: " + res.Errors[0].Text
+	}
+	outs := map[string]string{}
+	for _, f := range res.OutputFiles {
+		outs[filepath.Base(f.Path)] = clip(string(f.Contents), 1500)
+	}
+	input["outputs"] = outs
+	rr, err := runNode(root, []job{{Files: []string{filepath.Join(root, "out", "e0.js")}}, {Files: []string{filepath.Join(root, "src", "e0.js")}},
+		{Files: []string{filepath.Join(root, "out", "e1.js"), filepath.Join(root, "out", "e0.js")}}, {Files: []string{filepath.Join(root, "src", "e1.js"), filepath.Join(root, "src", "e0.js")}}})
+	if err != nil {
+		return input, "node: " + err.Error()
+	}
+	if msg := compareRuns(rr[0], rr[1]); msg != "" {
+		return input, "loading out/e0.js: " + msg
+	}
+	if msg := compareRuns(rr[2], rr[3]); msg != "" {
+		return input, "loading out/e1.js, out/e0.js: " + msg
+	}
+	return input, ""
+}
+
+func unitCases(r *Rng, n int, st *Stats, cf *CoqFile, tmp string) {
 	var items []string
 	for i := 0; i < n+40; i++ {
 		bitCount := 1 + r.Intn(40)
@@ -1830,6 +2069,7 @@ func unitCases(r *Rng, n int, st *Stats, cf *CoqFile) {
 
 	pool := []string{"x", "x2", "x3", "v", "v2", "bump", "done", "a", "a1", "a10", "a2", "x22", "x_shared", "m0_exports", "v1", "v11"}
 	var ritems []string
+	materialised := 0
 	for i := 0; i < n/2+20; i++ {
 		ren := renamer.ExportRenamer{}
 		cnt := 1 + r.Intn(12)
@@ -1845,6 +2085,23 @@ func unitCases(r *Rng, n int, st *Stats, cf *CoqFile) {
 			if names[j] != got[j] {
 				renamed = true
 			}
+		}
+		seenAlias := map[string]bool{}
+		dup := ""
+		for _, a := range got {
+			if seenAlias[a] {
+				dup = a
+			}
+			seenAlias[a] = true
+		}
+		if dup != "" && materialised < 3 {
+			materialised++
+			input, msg := materialiseNames(tmp, i, names, got)
+			if msg == "" {
+				msg = "(the project built from these names loads correctly)"
+			}
+			st.Fail("export aliases of a chunk are not pairwise distinct", input,
+				map[string]interface{}{"aliases": got, "duplicate": dup, "project": msg}, "ExportRenamer.NextRenamedName never returns the same name twice; chunks load")
 		}
 		ritems = append(ritems, fmt.Sprintf("(%s,%s)", cStrs(names), cStrs(got)))
 		st.Note("rename", strings.Join(names, ","), renamed)
